@@ -10,7 +10,7 @@ def rows(prefix_r2):
     for d in sorted(os.listdir('/verif/seeded')):
         mp=f'/verif/seeded/{d}/meta.json'
         if not os.path.exists(mp): continue
-        rnd = 5 if d.startswith('R5-') else 4 if d.startswith('R4-') else 3 if d.startswith('R3-') else (True if d.startswith('R2-') else False)
+        rnd = 6 if d.startswith('R6-') else 5 if d.startswith('R5-') else 4 if d.startswith('R4-') else 3 if d.startswith('R3-') else (True if d.startswith('R2-') else False)
         if rnd != prefix_r2: continue
         m=json.load(open(mp)); det=m.get('detection',{})
         fd=det.get('first_detail','')
@@ -267,6 +267,37 @@ changes for exact parameter coincidences). A preview in a scratch clone caught
 |---|---|---|---|---|
 {rows(5)}
 
+**Round 6: 24 changes** for C01, C02, C03, C05, C08, C09, C10, C11 (third
+helpings; agents were told which places were still untouched). 21 of 24 were
+caught by their own property's quick check, one more by the property that owns
+the clause it breaks, 2 are not detected by design:
+
+* R6-C11-2 (a rare atom at the centre of the simplex, 5e-6 … 8.5e-4) and
+  R6-C11-1 (wrong reverse cumulative sums for ≥ 34 all-small entries) needed
+  two strengthenings written from the agents' reports before the evaluation:
+  the atom test T5 on Dirichlet components (Gamma method) and fixed long
+  all-small vectors (random vectors in the known-finding region of the Beta
+  method are excluded, so long ones never occurred).
+* R6-C08-1 (u8 vectors of exactly 255 entries rejected): vectors at the narrow
+  types' length limits (MAX−1, MAX, MAX+1, 2·MAX+1) were added to C08.
+* R6-C02-2 (Zipf returns 0 for u = 0) is a support violation on one draw in
+  2^24: C03 catches it (cross-detection); the law test of C02 cannot see 1e-7.
+* R6-C10-2 ≡ R5-C04-2 (`get()` of the half-parent of an even-length tree) is
+  caught by C10 and C09.
+* Not detected, by design: R6-C01-1 (SkewNormal |shape| > 100: E ends at 100)
+  and R6-C09-2 (a float `update` whose increase is below half an ulp of the
+  total is dropped: inside C09's rounding allowance for float trees, and
+  without effect on sampling — C10 does not see it either).
+
+The agents of this round also reported two genuine defects of the unchanged
+tree that the checks had missed (both repaired, §6): WeightedAliasIndex with a
+subnormal weight sum returning index 4294967295 (the float alphabets stopped
+at MIN_POSITIVE) and Zipf<f32>(MAX, 0) — a regression of fix d69b147.
+
+| id | change | needs | caught by | time incl. rebuild |
+|---|---|---|---|---|
+{rows(6)}
+
 **Re-evaluation.** After round 4 every one of the 116 changes of rounds 1–3 was
 run again (scratch clone, final harness, own property's quick check): the
 detection matrix is unchanged — the only non-detections are the five already
@@ -314,7 +345,7 @@ the pre-fix source in both float types.
   (`tree_sample`), C14 (`schedule`). The last full thorough sweep on the
   repaired tree passed for all 15 (≈ 3.5 h on 16 cores; C06 33 min, C09 48 min,
   C03 30 min, C01 17 min are the long ones).
-* Five rounds of seeded changes (161 kept) are under `seeded/`; evaluate with
+* Six rounds of seeded changes (185 kept) are under `seeded/`; evaluate with
   `scripts/eval_seeded.sh <id>[:CHECK[:TIER]] …` (applies to /repo, runs
   `check.sh`, reverts). Patches touching files changed by later `fix:` commits
   may need `git apply -3` (the script tries it) or a rebase (done for
